@@ -3,6 +3,7 @@ package rules
 import (
 	"fmt"
 	"go/token"
+	"sort"
 	"strings"
 
 	"golang.org/x/tools/go/ssa"
@@ -273,6 +274,11 @@ func runC47(c *core.Ctx) {
 	}
 	if fn := anchorM(c, pkg, "accountsParser", "checkForDuplicates"); fn != nil {
 		n := 0
+		type helperTest struct {
+			site *ssa.Call
+			h    *ssa.Function
+		}
+		var viaHelper []helperTest
 		for _, b := range fn.Blocks {
 			ifi, ok := b.Instrs[len(b.Instrs)-1].(*ssa.If)
 			if !ok {
@@ -289,6 +295,35 @@ func runC47(c *core.Ctx) {
 			}
 			n++
 			key := core.ExprKey(ifi.Cond)
+			// the pair test may be a boolean method of the parser (`if ap.isRepeatedAfter(i) { return err }`): what
+			// decides is then what that method branches on before it answers true
+			if hc, isCall := ifi.Cond.(*ssa.Call); isCall {
+				if h := hc.Call.StaticCallee(); h != nil && h.Blocks != nil && h.Pkg == fn.Pkg && h != fn {
+					var keys []string
+					for _, hb := range h.Blocks {
+						hif, isIf := hb.Instrs[len(hb.Instrs)-1].(*ssa.If)
+						if !isIf {
+							continue
+						}
+						for _, sb := range hb.Succs {
+							if onlyConstBoolReturnsFrom(sb, true) {
+								keys = append(keys, core.ExprKey(hif.Cond))
+							}
+						}
+					}
+					for _, hr := range core.Returns(h) {
+						if _, isC := core.ConstBool(core.RetOperand(hr, 0)); !isC {
+							keys = append(keys, core.ExprKey(core.RetOperand(hr, 0)))
+						}
+					}
+					if len(keys) > 0 {
+						sort.Strings(keys)
+						key = strings.Join(keys, " ; ")
+						c.Analysed(fname(h))
+						viaHelper = append(viaHelper, helperTest{hc, h})
+					}
+				}
+			}
 			canonical := strings.Contains(key, "AddressBytes(") || strings.Contains(key, "ToLower(") || strings.Contains(key, "ToUpper(") || strings.Contains(key, "EqualFold(")
 			raw := strings.Contains(key, ".Address ") || strings.HasSuffix(strings.TrimSuffix(key, ")"), ".Address")
 			c.Check(canonical && !raw, "C47/duplicate-test-canonical", fmt.Sprintf("accountsParser.checkForDuplicates#%d", n), ifi.Pos(), "duplicates are detected on decoded address bytes (or a case-normalised form): "+key,
@@ -299,7 +334,11 @@ func runC47(c *core.Ctx) {
 		}
 		// nowhere in the duplicate detection (including comparators of a sort) may the raw textual address decide anything
 		rawCmp := ""
-		for _, f := range core.WithAnon(fn) {
+		scope := core.WithAnon(fn)
+		for _, ht := range viaHelper {
+			scope = append(scope, core.WithAnon(ht.h)...)
+		}
+		for _, f := range scope {
 			core.Instrs(f, func(in ssa.Instruction) {
 				b, ok := in.(*ssa.BinOp)
 				if !ok {
@@ -326,6 +365,12 @@ func runC47(c *core.Ctx) {
 				if l1 != l2 && l1.Body[l2.Header] {
 					nested = true
 				}
+			}
+		}
+		// ... or the inner loop is the helper's: the call sits in a loop of checkForDuplicates and the helper loops itself
+		for _, ht := range viaHelper {
+			if core.InnermostLoop(fn, ht.site.Block()) != nil && len(core.Loops(ht.h)) > 0 {
+				nested = true
 			}
 		}
 		c.Check(nested, "C47/duplicate-test-canonical", "accountsParser.checkForDuplicates/all-pairs", fn.Pos(), "every pair of entries is compared (nested loops)", "the duplicate test no longer compares every pair of entries")
